@@ -12,13 +12,13 @@ RULE = ("random merged S(Q) (Q>0, 8-40 points), r grid (5-25 points, Rmin 0 or >
         "correction flag, cutoff; a random legal sequence of 1-8 operations (thorough 1-30) out of transform / filter / lorch / "
         "keen-F(Q) / keen-G(r); every step is compared with a direct library call and with the other orders; "
         "non-trivial = the sequence contains a filter and at least one repeated operation")
-DIST = ["rsf", "lowq", "nops"]
+DIST = ["rsf", "lowq", "nops", "retuned"]
 SHRINK = None
 TRUSTED = ["lean/PystogVerif/Model/Workflow.lean is a hand-written state machine for the five workflow steps whose numeric work is the "
            "generated code; tied to /repo by the op-sequence correspondence (all master dictionaries after every step)"]
 RSF = ["g(r)", "G(r)", "GK(r)"]
 SHORT = {"g(r)": "g", "G(r)": "G", "GK(r)": "GK"}
-OPS = ["T", "F", "L", "KF", "KG"]
+OPS = ["T", "F", "L", "KF", "KG", "rho:=;T", "bcoh:=;T"]
 
 
 def gen(rng, i, tier):
@@ -29,9 +29,15 @@ def gen(rng, i, tier):
     rmin = 0.0 if rng.random() < 0.5 else 0.1
     nops = int(rng.integers(1, 9 if tier == "quick" else 31))
     ops = [int(t) for t in rng.integers(0, 5, nops)]
+    # 35% of the histories re-tune the instance in between: op 5 = set a new density, op 6 = set a new <b_coh>^2, each followed by
+    # transform_merged (the re-tuned instance must behave like a fresh one with the new constants)
+    if rng.random() < 0.35:
+        for _ in range(int(rng.integers(1, 3))):
+            ops.insert(int(rng.integers(1, len(ops) + 1)), int(rng.integers(5, 7)))
     return dict(q=tolist(q), s=tolist(s), rsf=int(rng.integers(0, 3)), rho=float(10 ** rng.uniform(-2, -0.5)), bcoh=float(rng.uniform(0.5, 6)),
                 lowq=bool(rng.random() < 0.4), cutoff=float(rng.uniform(0.6, 2.0)), rmin=rmin, rmax=float(rng.uniform(3, 6)),
-                rdelta=float(rng.choice([0.1, 0.2, 0.25])), ops=ops, nops=nops)
+                rdelta=float(rng.choice([0.1, 0.2, 0.25])), ops=ops, nops=nops, rho2=float(10 ** rng.uniform(-2, -0.5)), bcoh2=float(rng.uniform(0.5, 6)),
+                retuned=any(o >= 5 for o in ops))
 
 
 @contextlib.contextmanager
@@ -80,6 +86,8 @@ def apply(st, op):
     q, s, r, g = cur(st)
     if op == 0:
         st.transform_merged()
+    elif op in (5, 6):
+        st.transform_merged()
     elif op == 1:
         return st.fourier_filter()
     elif op == 2:
@@ -113,12 +121,22 @@ def evaluate(case):
         r0, g0, _ = getattr(tr, f"S_to_{X}")(q, s, st.dr, lorch=False, **kw)
         ref = getattr(ff, f"{X}_using_S")(r0, g0, q, s, case["cutoff"], lorch=False, OmittedXrangeCorrection=case["lowq"], **kw)
         for k, op in enumerate(case["ops"]):
+            if op in (5, 6):
+                # re-tune through the public setter; the references follow "the instance's density, scattering lengths"
+                if op == 5:
+                    st.density = case["rho2"]
+                    kw["rho"] = case["rho2"]
+                else:
+                    st.bcoh_sqrd = case["bcoh2"]
+                    kw["<b_coh>^2"] = case["bcoh2"]
+                r0, g0, _ = getattr(tr, f"S_to_{X}")(q, s, st.dr, lorch=False, **kw)
+                ref = getattr(ff, f"{X}_using_S")(r0, g0, q, s, case["cutoff"], lorch=False, OmittedXrangeCorrection=case["lowq"], **kw)
             qc, sc_, rc, gc = cur(st)
             ret = apply(st, op)
             if not (np.array_equal(st.q_master[st.sq_title], q) and np.array_equal(st.sq_master[st.sq_title], s)):
                 fails.append(f"step {k} ({OPS[op]}): the merged S(Q) was overwritten")
                 break
-            if op == 0 and not np.array_equal(st.gr_master[st.gr_title], g0):
+            if op in (0, 5, 6) and not np.array_equal(st.gr_master[st.gr_title], g0):
                 fails.append(f"step {k}: transform_merged does not store Transformer.S_to_{X} of the merged data with the instance's settings")
             if op == 1:
                 qq, ss, rr, gg = ret
@@ -128,7 +146,7 @@ def evaluate(case):
                 if not ok:
                     fails.append(f"step {k}: fourier_filter differs from FourierFilter.{X}_using_S on the merged data (history {[OPS[t] for t in case['ops'][:k]]})")
             if op == 2:
-                lk = {"g": {"lorch": True, "rho": case["rho"]}, "G": {"lorch": True}, "GK": {"lorch": True, **kw}}[X]
+                lk = {"g": {"lorch": True, "rho": kw["rho"]}, "G": {"lorch": True}, "GK": {"lorch": True, **kw}}[X]
                 _, gl, _ = getattr(tr, f"S_to_{X}")(qc, sc_, rc, **lk)
                 if not (np.array_equal(ret[1], gl) and np.array_equal(st.gr_master[st.gr_lorch_title], gl)):
                     fails.append(f"step {k}: apply_lorch differs from Transformer.S_to_{X}(lorch=True)")
@@ -155,6 +173,7 @@ def correspond(seed, tier):
     dist = {"ops": {o: 0 for o in OPS}, "steps": 0}
     for i in range(n):
         c = gen(rng_for(seed, "corr12", i), i, tier)
+        c["ops"] = [o for o in c["ops"] if o < 5]
         with workdir(), np.errstate(all="ignore"):
             st = mk(c)
             dr = np.array(st.dr, dtype=float)
